@@ -39,7 +39,7 @@ def gen_cases(tier, seed):
         nops = r.randrange(2, 26) if thorough else r.randrange(2, 9)
         ops = []
         for j in range(nops):
-            ops.append(r.choice(["api", "api", "asm", "futil", "api-multi"]))
+            ops.append(r.choice(["api", "api", "asm", "futil", "api-multi", "futil-select"]))
         yield {"id": "hist/%d" % k, "kind": "history", "medium": medium, "ops": ops, "fill": r.random() < 0.15 and medium == "dsk"}
     for fill in (0x00, 0xFF):
         yield {"id": "bigcas/%02X" % fill, "kind": "bigcas", "fill": fill}
@@ -144,9 +144,17 @@ def run_history(case, ctx):
             else:
                 s = mk_spec(r, "cas", len(shadow))
                 s["type"], s["dtype"] = 2, 0
-                src = RT.generate([dict(name=s["name"].ljust(8).encode(), ftype=2, dtype=0, load=s["load"], exec=s["exec"], data=bytes.fromhex(s["data"]))], r)
+                srcfiles = [s]
+                extra_args = []
+                if op == "futil-select":
+                    # a two-file source of which only one is selected: the selection applies to the source, never to what the target already holds
+                    s2 = mk_spec(r, "cas", len(shadow) + 50)
+                    s2["type"], s2["dtype"] = 2, 0
+                    srcfiles = [s, s2] if r.random() < 0.5 else [s2, s]
+                    extra_args = ["--files", r.choice([s["name"].lower(), s["name"].upper(), s["name"]])]
+                src = RT.generate([dict(name=x["name"].ljust(8).encode(), ftype=2, dtype=0, load=x["load"], exec=x["exec"], data=bytes.fromhex(x["data"])) for x in srcfiles], r)
                 open(os.path.join(d, "one.cas"), "wb").write(src)
-                res = fsmon.run_cli("file_util.py", ["one.cas", "--to_" + medium, "img." + medium, "--append"], d)
+                res = fsmon.run_cli("file_util.py", ["one.cas", "--to_" + medium, "img." + medium, "--append"] + extra_args, d)
                 new = [s]
                 if res.code != 0:
                     failed = res.out[-100:]
